@@ -1155,7 +1155,7 @@ DLLIMPORT cfg_value_t *cfg_setopt(cfg_t *cfg, cfg_opt_t *opt, const char *value)
 			created = 1;
 		}
 		/* a new instance always starts from the declared defaults */
-		if ((created || !is_set(CFGF_DEFINIT, opt->flags)) && cfg_init_defaults(val->section) != CFG_SUCCESS)
+		if (created && cfg_init_defaults(val->section) != CFG_SUCCESS)
 			return NULL;
 		break;
 
